@@ -45,6 +45,39 @@ pub(crate) fn c05_setters_leave_halt() {
     vassert!(m.state() == old.state(), "C05.F.step-mode-leaves-run-state");
 }
 
+/// The machine-level keys are exactly the raw machine's operations of the same name (wiring): the
+/// continue key, the interrupt key, both resets and a Real-mode clock.
+#[cfg_attr(kani, kani::proof)]
+pub(crate) fn c05_machine_keys_are_the_raw_operations() {
+    let mut m = any_machine();
+    vassume(wf_machine(&m));
+    let mut r = raw_of(&m).clone();
+    let mode = m.step_mode();
+    let op: u8 = vany();
+    vassume(op < 4);
+    vcover!(op == 0 && r.state() == State::Stopped, "pre.continue-from-stop");
+    match op {
+        0 => {
+            m.trigger_key_continue();
+            r.trigger_key_continue();
+        }
+        1 => {
+            m.trigger_key_interrupt();
+            r.trigger_key_edge_interrupt();
+        }
+        2 => {
+            m.cpu_reset();
+            r.cpu_reset();
+        }
+        _ => {
+            m.master_reset();
+            r.master_reset();
+        }
+    }
+    vassert!(raw_same(raw_of(&m), &r), "C05.K.machine-key-is-the-raw-operation");
+    vassert!(m.step_mode() == mode, "C05.K.machine-key-keeps-step-mode");
+}
+
 #[cfg_attr(kani, kani::proof)]
 pub(crate) fn c05_load_establishes() {
     let mut m = any_machine();
@@ -61,4 +94,4 @@ pub(crate) fn c05_load_establishes() {
     vassert!(wf_machine(&m), "C05.S.load-keeps-wf");
 }
 
-crate::replay_table!(verif_replay_c05m; c05_setters_leave_halt, c05_load_establishes,);
+crate::replay_table!(verif_replay_c05m; c05_setters_leave_halt, c05_machine_keys_are_the_raw_operations, c05_load_establishes,);
